@@ -21,6 +21,9 @@
 #include <fcppt/variant/object_impl.hpp>
 #include <fcppt/variant/to_optional.hpp>
 #include <fcppt/variant/to_optional_ref.hpp>
+#include <fcppt/either/match.hpp>
+#include <fcppt/either/object_impl.hpp>
+#include <fcppt/optional/maybe.hpp>
 #include <functional>
 #include <type_traits>
 
@@ -238,6 +241,56 @@ void compare_hetero()
   verif_out("ceq", ceq);
   verif_reach("compare-hetero-end");
 }
+
+// match / maybe hand the result of the selected continuation on UNCHANGED - also when that result is a reference: the
+// caller gets the very object the continuation returned (here: the held payload itself), so writing through it changes
+// the container.  (Whether the result is a reference is decided at run time on purpose: a static_assert would turn a
+// change of the deduced type into a build failure of the kernel instead of a verdict.)
+struct pa { int n; };
+struct pb { int n; };
+struct pc { int n; };
+void match_ref()
+{
+  unsigned const tag{verif_u8("tag")};
+  verif_assume(tag < 3);
+  int const x{static_cast<int>(verif_u32("x"))}, y{static_cast<int>(verif_u32("y"))};
+  using V = var::object<pa, pb, pc>;
+  V v{tag == 0 ? V{pa{x}} : tag == 1 ? V{pb{x}} : V{pc{x}}};
+  auto const held{[&v, tag]() -> int & { return tag == 0 ? var::get_unsafe<pa>(v).n : tag == 1 ? var::get_unsafe<pb>(v).n : var::get_unsafe<pc>(v).n; }};
+  {
+    decltype(auto) r(var::match(v, [](pa &a) -> int & { return a.n; }, [](pb &b) -> int & { return b.n; }, [](pc &c) -> int & { return c.n; }));
+    bool const is_ref{std::is_lvalue_reference_v<decltype(r)>};
+    verif_assert(is_ref, "variant::match: a reference returned by the continuation stays a reference");
+    verif_assert(r == x, "variant::match: the result is the held payload");
+    r = y;
+    verif_assert(held() == y, "variant::match: writing through the returned reference changes the held payload");
+  }
+  {
+    V const &cv{v};
+    decltype(auto) r(var::match(cv, [](pa const &a) -> int const & { return a.n; }, [](pb const &b) -> int const & { return b.n; }, [](pc const &c) -> int const & { return c.n; }));
+    verif_assert(std::is_lvalue_reference_v<decltype(r)>, "variant::match (const): a reference stays a reference");
+    held() = x;
+    verif_assert(r == x, "variant::match (const): the returned reference refers to the held payload (sees a later change)");
+  }
+  {
+    using E = fcppt::either::object<pa, pb>;
+    E e{tag == 0 ? E{pa{x}} : E{pb{x}}};
+    decltype(auto) r(fcppt::either::match(e, [](pa &a) -> int & { return a.n; }, [](pb &b) -> int & { return b.n; }));
+    verif_assert(std::is_lvalue_reference_v<decltype(r)>, "either::match: a reference stays a reference");
+    r = y;
+    verif_assert((tag == 0 ? e.get_failure_unsafe().n : e.get_success_unsafe().n) == y, "either::match: writing through the returned reference changes the held value");
+  }
+  {
+    int fallback{x};
+    opt::object<pa> o{tag == 0 ? opt::object<pa>{} : opt::object<pa>{pa{x}}};
+    decltype(auto) r(opt::maybe(o, [&fallback]() -> int & { return fallback; }, [](pa &a) -> int & { return a.n; }));
+    verif_assert(std::is_lvalue_reference_v<decltype(r)>, "optional::maybe: a reference stays a reference");
+    r = y;
+    verif_assert((tag == 0 ? fallback : o.get_unsafe().n) == y, "optional::maybe: writing through the returned reference changes the selected object");
+    verif_assert(tag == 0 || fallback == x, "optional::maybe: the default is untouched when a value is present");
+  }
+  verif_reach("match-ref-end");
+}
 }
 
 using uc = unsigned char;
@@ -249,3 +302,5 @@ H(h_var_binary_isc, (binary<int, short, uc, uc>())) H(h_var_binary_cis, (binary<
 H(h_var_compare_hetero_isc, (compare_hetero<int, short, uc, 3>())) H(h_var_compare_hetero_ilu, (compare_hetero<int, long, unsigned, 3>()))
 H(h_var_compare_hetero_bi, (compare_hetero<bool, int, void *, 2>()))
 //@harness h_var_compare_hetero_{T} for T in isc,ilu,bi tier=quick
+H(h_var_match_ref, match_ref())
+//@harness h_var_match_ref tier=quick
